@@ -26,7 +26,7 @@ def cq_s(b):
         b = b.encode("utf-8", "surrogateescape")
     if all(32 <= c < 127 and c != 34 for c in b):
         return '"' + b.decode("ascii") + '"'
-    return "(bytes [" + ";".join(str(c) for c in b) + "])"
+    return "(bytes [" + ";".join(str(c) for c in b) + "]%N)"
 
 
 def cq_o(x, f=cq_s):
@@ -48,10 +48,10 @@ def cq_z(z):
 # ------------------------------------------------------------------ script language (mirror of `prim` in Model/Job.v)
 def render_prim(p):
     k = p[0]
-    if k == "POut": return f"printf %s '{p[1]}'"
-    if k == "PErr": return f"printf %s '{p[1]}' >&2"
-    if k == "PWrite": return f"printf %s '{p[2]}' > {p[1]}"
-    if k == "PAppend": return f"printf %s '{p[2]}' >> {p[1]}"
+    if k == "POut": return f'printf %s "{p[1]}"'          # texts come from WORDS: no quote, $, backslash or backquote
+    if k == "PErr": return f'printf %s "{p[1]}" >&2'
+    if k == "PWrite": return f'printf %s "{p[2]}" > {p[1]}'
+    if k == "PAppend": return f'printf %s "{p[2]}" >> {p[1]}'
     if k == "PCopy": return f"cat {p[1]} > {p[2]} 2>/dev/null"
     if k == "PCat": return f"cat {p[1]} 2>/dev/null"
     if k == "PEnv": return f'printf %s "${p[1]}"'
@@ -650,7 +650,8 @@ def run(ctx, rep):
         rep.violate(sig, text, {"kind": "xtb"})
     bbad = vlib.run_shards(ctx, rep, "c17b", HEADER, "check_bcase", bterms, shard=60, case_type="bcase")
     # ---- verdict on broken obligations
-    found = bool([v for v in rep.violations])
+    known = {k["signature"] for k in vlib.load_known() if k["property"] == "C17" and k.get("status") == "known"}
+    found = bool([v for v in rep.violations if v.sig not in known])
     if not ok:
         vlib.broken_obligation(rep, "C17_props", f"{where}\n{out[-1500:]}", found)
     for name, b, metas in (("corr_c17r", bad, cases), ("corr_c17b", bbad, bmeta)):
